@@ -198,6 +198,19 @@ def rich_documents():
             ("updated-from-another-document", two_documents_updated)]
 
 
+_A = ("A", "a", alphabets.S("ex"))
+_K, _K2 = ("A", "k", alphabets.S("ex")), ("A", "k2", alphabets.S("ex"))
+INTERLEAVED_EXTRA = [
+    [("ns", "D", "ex", "A"), ("el", "D", "activity", _A, ("t1", None)), ("at", _K, "s_a"), ("settime", "end", "t1")],
+    [("ns", "D", "ex", "A"), ("el", "D", "activity", _A, (None, None)), ("at", _K, "i_2"), ("settime", "start", "t2"), ("asrt", "q_prov")],
+    [("ns", "D", "ex", "A"), ("el", "D", "entity", ("A", "x", alphabets.S("ex"))), ("at", _K, "s_a"), ("asrt", "q_prov"), ("at", _K2, "b_T")],
+    [("ns", "D", "ex", "A"), ("rel", "D", "generation", None, (("A", "x", alphabets.S("ex")), None, None)), ("at", _K, "s_a"),
+     ("at", ("P", "role", alphabets.Q("prov")), "s_a")],
+    [("ns", "D", "ex", "A"), ("bun", "B1", ("A", "b1", alphabets.S("ex"))), ("el", "B1", "activity", _A, ("t1", None)),
+     ("at", _K, "s_a"), ("settime", "end", "t1")],
+]
+
+
 class C13(spec.Spec):
     prop = "C13"
 
@@ -218,14 +231,33 @@ class C13(spec.Spec):
 
     def interleaved_case(self, hist, out):
         """an export in the middle of building a document must not influence what is exported at the end"""
-        ops = self._as_ops(hist)
-        n = len(ops)
-        if n < 2:
+        base_ops = self._as_ops(hist)
+        if len(base_ops) < 2:
             return
+        # the canonical state key does not record in which order attributes arrived: every replayable
+        # ordering of the history's calls is tried (the explored history is only one representative)
+        seen = set()
+        for perm in itertools.permutations(base_ops):
+            if perm in seen:
+                continue
+            seen.add(perm)
+            self._interleaved_ordering(list(perm), hist, out)
+
+    def interleaved_extra_case(self, i, out):
+        """hand-picked longer histories (a record, then edits of it through every in-place editor), every ordering"""
+        for perm in set(itertools.permutations(INTERLEAVED_EXTRA[i])):
+            self._interleaved_ordering(list(perm), None, out)
+
+    def _interleaved_ordering(self, ops, hist, out):
+        n = len(ops)
+        twin_st = machine.State()
         try:
-            twin = self.fresh(hist).doc
+            for op in ops:
+                machine.apply(twin_st, op, self.values)
         except (machine.NotEnabled, machine.NonConformance):
             return
+        twin = twin_st.doc
+        hist = ("ops",) + tuple(ops)
         want = {f: call(f, twin) for f in self.FINAL}
         want_obs = full_obs(twin)
         for k in range(1, n):
@@ -322,6 +354,8 @@ class C13(spec.Spec):
     def ops(self, hist):
         if hist and hist[0] == "seq":
             return list(hist)
+        if hist and hist[0] == "ops":
+            return [repr(o) for o in hist[1:]]
         return spec.Spec.ops(self, hist)
 
     def render(self, hist):
@@ -374,6 +408,9 @@ def main(tier, seed):
     out4 = explore.pmap(__name__, tier, {}, "interleaved_case", inter, chunk=4)
     out4.evaluations -= len(inter)
     out.merge(out4)
+    out5 = explore.pmap(__name__, tier, {}, "interleaved_extra_case", list(range(len(INTERLEAVED_EXTRA))), chunk=1)
+    out5.evaluations -= len(INTERLEAVED_EXTRA)
+    out.merge(out5)
     rich = [(name, 2 if tier == "quick" else 3) for name, _ in rich_documents()]
     out3 = explore.pmap(__name__, tier, {}, "rich_case", rich, chunk=1)
     out3.evaluations -= len(rich)
